@@ -2,6 +2,7 @@
 C14 instantiated with the transcribed package decoders (`Codec.ops`, Model/Codec/Pkg.lean).
 -/
 import Dblib.Props.C14.Abstract
+import Dblib.Props.C14.EndToEnd
 import Dblib.Props.C02.Concrete
 import Dblib.Model.PacketReaderDriver
 
@@ -15,6 +16,14 @@ theorem c14_concrete_channel_clean_prefix (last : Option Pkg) (T : Bytes) (pkgs 
     ∃ j, j ≤ pkgs.length ∧
       (run Codec.ops (withBuf rx last (T.take k) false)).2.1 = (pkgs.take j).flatMap (acceptEv Codec.ops rx.nEed rx.nEnv) :=
   c14_channel_clean_prefix Codec.ops select_incr last T pkgs hW rx k
+
+/-- partial responses of real packages through the channel: exactly the events of the first `j` packages -/
+theorem c14_concrete_partial_response (rx : Rx Pkg) (T : Bytes) (pkgs : List Pkg)
+    (hbuf : rx.buf = []) (heom : rx.eom = false) (hc : rx.closed = false)
+    (hW : WholeP Codec.ops rx.last T pkgs) (cs : List Bytes) (rest : Bytes) (hpre : T = cs.flatten ++ rest) :
+    ∃ rx' ev j, feed Codec.ops rx (cs.map (fun c => (c, false))) = some (rx', ev) ∧ j ≤ pkgs.length
+      ∧ ev = (pkgs.take j).flatMap (acceptEv Codec.ops rx.nEed rx.nEnv) :=
+  c14_partial_response Codec.ops select_incr rx T pkgs hbuf heom hc hW cs rest hpre
 
 /-- a request write that fails is reported as an error, with exactly the packets before it written;
 a request whose writes all succeed is sent completely (the loop of `sendPackets` returns at the
